@@ -36,6 +36,11 @@ enum Op {
   AllocTemp,
   /// create_temp_counter, n × alloc_temp_str on it, sync_temp_counter
   TempCounter(usize),
+  /// the same three calls as separate operations, so that anything can happen in between (the
+  /// optimizer syncs right after its parallel section, the API does not require it)
+  CounterCreate,
+  CounterAlloc,
+  CounterSync,
   /// alloc_string each part, then alloc_module_reference(parts)
   ModRef(Vec<String>),
   /// alloc_module_reference_from_string_vec(parts)
@@ -57,6 +62,9 @@ impl Op {
       Op::AllocStatic(_) => "alloc_static",
       Op::AllocTemp => "alloc_temp",
       Op::TempCounter(_) => "temp_counter",
+      Op::CounterCreate => "counter_create",
+      Op::CounterAlloc => "counter_alloc",
+      Op::CounterSync => "counter_sync",
       Op::ModRef(_) => "modref",
       Op::ModRefFromStrings(_) => "modref_from_strings",
       Op::GetModRef(_) => "get_modref",
@@ -73,6 +81,9 @@ impl Op {
       Op::AllocStatic(s) => json!({"op": "alloc_static", "s": s}),
       Op::AllocTemp => json!({"op": "alloc_temp"}),
       Op::TempCounter(n) => json!({"op": "temp_counter", "n": n}),
+      Op::CounterCreate => json!({"op": "counter_create"}),
+      Op::CounterAlloc => json!({"op": "counter_alloc"}),
+      Op::CounterSync => json!({"op": "counter_sync"}),
       Op::ModRef(p) => json!({"op": "modref", "parts": p}),
       Op::ModRefFromStrings(p) => json!({"op": "modref_from_strings", "parts": p}),
       Op::GetModRef(p) => json!({"op": "get_modref", "parts": p}),
@@ -93,6 +104,9 @@ impl Op {
       "alloc_static" => Op::AllocStatic(s()),
       "alloc_temp" => Op::AllocTemp,
       "temp_counter" => Op::TempCounter(v["n"].as_u64().unwrap() as usize),
+      "counter_create" => Op::CounterCreate,
+      "counter_alloc" => Op::CounterAlloc,
+      "counter_sync" => Op::CounterSync,
       "modref" => Op::ModRef(parts()),
       "modref_from_strings" => Op::ModRefFromStrings(parts()),
       "get_modref" => Op::GetModRef(parts()),
@@ -188,7 +202,7 @@ fn generate_free(rng: &mut Rng, n_ops: usize) -> Vec<Op> {
   let mut ops = Vec::new();
   let mut table_guess = 0usize;
   // per-run weights (swarm): some runs never pop, some never mark, …
-  let mut w = [12usize, 4, 1, 1, 3, 2, 1, 3, 4, 8, 10];
+  let mut w = [12usize, 4, 1, 3, 3, 2, 1, 3, 4, 8, 10];
   for x in w.iter_mut() {
     if rng.chance(1, 6) {
       *x = 0;
@@ -214,11 +228,16 @@ fn generate_free(rng: &mut Rng, n_ops: usize) -> Vec<Op> {
         table_guess += 1;
         Op::AllocTemp
       }
-      3 => {
-        let n = rng.below(4);
-        table_guess += n;
-        Op::TempCounter(n)
-      }
+      3 => match rng.below(5) {
+        0 => {
+          let n = rng.below(4);
+          table_guess += n;
+          Op::TempCounter(n)
+        }
+        1 => Op::CounterCreate,
+        2 | 3 => Op::CounterAlloc,
+        _ => Op::CounterSync,
+      },
       4 => {
         let parts = if rng.chance(1, 3) { rng.pick(&modrefs).clone() } else { gen_parts(rng, &sub) };
         table_guess += parts.len();
@@ -403,6 +422,8 @@ struct Exec<'a> {
   digest: Fnv,
   kind_digest: Fnv,
   trace: Option<&'a mut Vec<Value>>,
+  /// the temp-name counter currently held by the mutator (CounterCreate / CounterAlloc / CounterSync)
+  counter: Option<samlang_heap::TempPStrCounter>,
 }
 
 macro_rules! fail {
@@ -432,6 +453,7 @@ impl<'a> Exec<'a> {
       digest: Fnv::new(),
       kind_digest: Fnv::new(),
       trace: None,
+      counter: None,
     }
   }
 
@@ -563,6 +585,33 @@ impl<'a> Exec<'a> {
         }
         self.heap.sync_temp_counter(&c);
       }
+      Op::CounterCreate => {
+        self.counter = Some(self.heap.create_temp_counter());
+        outcome = "created".into();
+      }
+      Op::CounterAlloc => match self.counter.take() {
+        None => outcome = "skipped".into(),
+        Some(c) => {
+          let p = c.alloc_temp_str();
+          self.counter = Some(c);
+          let name = match readable(&self.heap, &p) {
+            Ok(n) => n,
+            Err(pr) => fail!("readback", i, op, "temp name unreadable: {}", pr.message),
+          };
+          if !self.model.temp_names.insert(name.clone()) {
+            self.stats.probes.inc("temp_name_repeated");
+          }
+          outcome = self.observe_alloc(i, op, &name, p, false)?.to_string();
+        }
+      },
+      Op::CounterSync => match self.counter.take() {
+        None => outcome = "skipped".into(),
+        Some(c) => {
+          self.heap.sync_temp_counter(&c);
+          self.stats.probes.inc("sync_of_a_counter_after_other_operations");
+          outcome = "synced".into();
+        }
+      },
       Op::ModRef(parts) => {
         let mut ps = Vec::new();
         for s in parts {
@@ -984,6 +1033,7 @@ fn main() {
     "promote_unmarked_temporary",
     "mark_of_permanent",
     "temp_name_repeated",
+    "sync_of_a_counter_after_other_operations",
   ]);
   ev.components = json!({
     "real": ["samlang_heap::Heap", "samlang_heap::PStr", "samlang_heap::ModuleReference", "samlang_heap::TempPStrCounter"],
